@@ -418,6 +418,10 @@ def run_cases(ctx, n: int, focus: str):
             continue
         if st != "ok" or payload != want:
             ctx.disagree("parseCallable", {"body": body}, want, payload)
+    # hypothesis of the semantic theorem about inlining (resolveCalled_refines), evaluated on what the inliner is given
+    for h in ctx.driver.batch([("inlDomainCap", r[1]) for r in reqs]):
+        ctx.dist["inside the domain of resolveCalled_refines" if tuple(h) == ("ok", "true") else
+                 "outside the domain of resolveCalled_refines (comprehension, keyword-called lambda, parameter used as a function, ...)"] += 1
 
 
 def run_same_callable_twice(ctx, n: int):
